@@ -16,7 +16,8 @@ RULE = ("extra-data trajectories of random shots (zeroed flat fire, arcing 5-40 
         "(shot, request); non-trivial when the target row is not the first/last row and at least one other row lies "
         "outside the target")
 MUST_OBSERVE = ["ranges_given_as_plain_numbers", "canted_shots", "cases_under_other_preferred_units", "danger_spaces", "target_on_rising_branch", "target_on_falling_branch", "inclined_sight_line",
-                "bound_is_interior_row", "bound_is_end_row", "monotonic_pairs", "beyond_rejected", "plain_rejected", "explicit_look_angle_argument", "shot_reaimed_after_fire"]
+                "bound_is_interior_row", "bound_is_end_row", "monotonic_pairs", "beyond_rejected", "plain_rejected", "explicit_look_angle_argument", "shot_reaimed_after_fire",
+                "same_numbers_after_unit_switch", "plain_number_after_equal_raw_quantity"]
 ASSUMPTIONS = ["'drop' is the row's drop relative to the sight line (target_drop), as in the reported DangerSpace rows"]
 DIST = si.DIMENSIONS["Distance"]
 
@@ -89,6 +90,78 @@ def check_space(ctx, hit, case, q_ft, h_ft, h_unit):
     return ib, ie
 
 
+def judge(rows, ds, req_raw, height_raw):
+    """The statement's conditions for one DangerSpace, for a request that means req_raw / height_raw (inches): list of keys violated."""
+    bad = []
+    half = height_raw / 2.0
+    ia, ib, ie = idx_of(rows, ds.at_range), idx_of(rows, ds.begin), idx_of(rows, ds.end)
+    if None in (ia, ib, ie):
+        return ["rows-not-from-trajectory"]
+    if ia != next((i for i, r in enumerate(rows) if r.distance.raw_value >= req_raw), -1):
+        bad.append("target-row")
+    if not (rows[ib].distance.raw_value <= req_raw <= rows[ie].distance.raw_value) or not ib <= ia <= ie:
+        bad.append("not-bracketing")
+    centre = rows[ia].target_drop.raw_value
+    if any(not abs(rows[i].target_drop.raw_value - centre) < half for i in range(ib + 1, ie) if i != ia):
+        bad.append("row-outside-target-inside-space")
+    for name, i, edge in (("begin", ib, 0), ("end", ie, len(rows) - 1)):
+        if i != edge and not abs(rows[i].target_drop.raw_value - centre) >= half:
+            bad.append(f"bound-inside-target.{name}")
+    if bits_ne(ds.target_height.raw_value, height_raw):
+        bad.append("target-height-echo")
+    return bad
+
+
+def ask(ctx, hit, case, at_arg, h_arg, req_raw, height_raw, flow):
+    """One more question to a HitResult that has answered others before; the answer is judged for what the arguments mean now."""
+    rows = hit.trajectory
+    beyond = req_raw > max(r.distance.raw_value for r in rows)
+    c = dict(case, flow=flow, at_arg=repr(at_arg), height_arg=repr(h_arg), means_at_range_in=req_raw, means_height_in=height_raw,
+             preferred_distance=PreferredUnits.distance.name)
+    try:
+        ds = hit.danger_space(at_arg, h_arg)
+    except ArithmeticError:
+        if not beyond:
+            ctx.violation(f"session.{flow}.raised", f"danger_space({at_arg!r}, {h_arg!r}) raised ArithmeticError although the request "
+                                                    f"({req_raw / 12:.3f} ft) lies within the trajectory", c)
+        return
+    if beyond:
+        ctx.violation(f"session.{flow}.beyond-not-rejected", f"danger_space({at_arg!r}, {h_arg!r}) means {req_raw / 12:.3f} ft under the preferred unit "
+                                                             f"{PreferredUnits.distance.name}, beyond the last row, but a danger space was returned", c)
+        return
+    for key in judge(rows, ds, req_raw, height_raw):
+        ctx.violation(f"session.{flow}.{key}", f"danger_space({at_arg!r}, {h_arg!r}) asked of a result that answered other questions before: "
+                                               f"[{key}] for the request it means now ({req_raw / 12:.3f} ft, height {height_raw / 12:.4f} ft, "
+                                               f"preferred distance unit {PreferredUnits.distance.name})", c)
+
+
+def session_clause(ctx, hit, case, last_ft):
+    """The same HitResult keeps answering while the session goes on: the same plain numbers after the preferred distance unit was
+    switched mean another range / height; a plain number that equals the raw value of a quantity asked before is not that quantity."""
+    ses = case.get("session")
+    if not ses:
+        return
+    saved = PreferredUnits.distance
+    try:
+        n_at, n_h = ses["numbers"]
+        for unit in ses["units"]:
+            PreferredUnits.distance = Unit[unit]
+            ask(ctx, hit, case, n_at, n_h, Unit[unit](n_at).raw_value, Unit[unit](n_h).raw_value, "same-numbers-after-unit-switch")
+            ctx.count("same_numbers_after_unit_switch")
+        # a quantity first, then the plain number equal to its raw (inch) value
+        q_in = round(ses["frac"] * last_ft * 12.0)
+        h_in = ses["h_in"]
+        if q_in >= 1:
+            PreferredUnits.distance = Unit[ses["units"][0]]
+            ask(ctx, hit, case, Distance.Inch(q_in), Distance.Inch(h_in), float(q_in), float(h_in), "quantity")
+            u = PreferredUnits.distance
+            for at_n, h_n in ((q_in, h_in), (float(q_in), float(h_in))):
+                ask(ctx, hit, case, at_n, h_n, u(at_n).raw_value, u(h_n).raw_value, "plain-number-after-equal-raw-quantity")
+                ctx.count("plain_number_after_equal_raw_quantity")
+    finally:
+        PreferredUnits.distance = saved
+
+
 def bits_ne(a, b):
     return abs(a - b) > 1e-12 * max(abs(a), abs(b), 1e-300)
 
@@ -141,6 +214,7 @@ def check_case(ctx, case):
                     ctx.violation("not-monotonic-in-height", f"taller target has danger space rows {res}, shorter one {prev}",
                                   dict(case, at_range_ft=q_ft, height_ft=h_ft))
             prev = res
+    session_clause(ctx, hit, case, last_ft)
     # beyond the computed trajectory
     for extra in (1e-6, 1.0, 1000.0):
         try:
@@ -188,7 +262,13 @@ def gen_case(rng):
     if rng.random() < 0.25:
         prefs = {"distance": rng.choice(DIST), "target_height": rng.choice(DIST), "drop": rng.choice(DIST),
                  "angular": rng.choice(si.DIMENSIONS["Angular"]), "adjustment": rng.choice(si.DIMENSIONS["Angular"])}
-    return {"shot": s, "zero_ft": zero_ft, "range_ft": range_ft, "step_ft": step, "queries": queries, "prefs": prefs,
+    session = None
+    if rng.random() < 0.35:
+        # numbers that are a sensible range / height in yards, metres and feet alike
+        session = {"numbers": [rng.choice([50, 120, 200.0, round(rng.uniform(20, 0.3 * range_ft), 1)]), rng.choice([1, 0.5, 2.5, round(rng.uniform(0.2, 8), 2)])],
+                   "units": rng.sample(["Yard", "Meter", "Foot", "Inch", "Centimeter"], 3), "frac": round(rng.uniform(0.05, 0.9), 3),
+                   "h_in": rng.choice([6, 20, 40])}
+    return {"shot": s, "zero_ft": zero_ft, "range_ft": range_ft, "step_ft": step, "queries": queries, "prefs": prefs, "session": session,
             "bare_at_range": rng.random() < 0.3,
             "look_arg_deg": rng.choice([None, None, 0.0, round(rng.uniform(-30, 30), 1)]),
             "reaim_deg": rng.choice([None, None, None, round(rng.uniform(-20, 20), 1)])}
